@@ -531,16 +531,8 @@ func execTransition(d db.KeyValueStore, m wmode, op wop) (o obs) {
 // keys one representative per key set (the value of a key fixed by its index in K). Successors outside
 // that set are still produced, executed and compared as transition targets; they are just not expanded.
 func (c *checker) sectionA(fullKeys, repKeys int) {
-	isRep := func(st state) bool {
-		for i, k := range K {
-			if v, ok := st[k]; ok && v != V[i%len(V)] {
-				return false
-			}
-		}
-		return true
-	}
 	expand := func(st state) bool {
-		return len(st) <= fullKeys || (len(st) <= repKeys && isRep(st))
+		return len(st) <= fullKeys || (len(st) <= repKeys && isRepresentative(st))
 	}
 	expected := countStates(fullKeys)
 	for _, ks := range keySets(repKeys) {
@@ -605,6 +597,10 @@ func (c *checker) sectionA(fullKeys, repKeys int) {
 					got := execTransition(p.d, w.m, w.op)
 					atomic.AddInt64(&execs, 1)
 					p.writes += 2
+					if base+int64(i) == 2 && w.m.name == "ibatch-commit" && w.op.kind == 'R' && w.op.a == "" && w.op.b == "b" {
+						r.Sample(map[string]any{"section": "A", "backend": be.name, "state": s.canon(), "mode": w.m.name, "op": w.op.String(),
+							"model": []string(w.o), "backend_returned": []string(got)})
+					}
 					actx := func() map[string]any {
 						return map[string]any{"state": s.canon(), "mode": w.m.name, "op": w.op.String()}
 					}
@@ -681,10 +677,10 @@ func (c *checker) sectionA(fullKeys, repKeys int) {
 // section B: op sequences inside one batch, read-your-writes, interleaved direct writer
 
 type bcase struct {
-	fullPair bool
-	indexed  bool
-	ops      []wop
-	extern   *wop // direct write by another writer after the ops were recorded, before the commit
+	class   string // "pair" | "triple" | "extern"
+	indexed bool
+	ops     []wop
+	extern  *wop // direct write by another writer after the ops were recorded, before the commit
 }
 
 func (b bcase) label() string {
@@ -773,9 +769,9 @@ func execBatch(d db.KeyValueStore, b bcase) (o obs) {
 	return o
 }
 
-// sectionB: from every base state, every batch case; the all-pairs-over-the-full-alphabet cases only from
-// base states with ≤ pairKeys keys.
-func (c *checker) sectionB(states []state, pairKeys int, tripleKeys, tripleVals []string) {
+// sectionB: from every base state, every batch case whose class (all pairs over the full op alphabet /
+// all triples over the reduced alphabet / one op + interleaved direct write) is allowed from that state.
+func (c *checker) sectionB(states []state, allow func(class string, s state) bool, tripleKeys, tripleVals []string) {
 	r := c.r
 	full := singleOps(K, V)
 	small := singleOps(tripleKeys, tripleVals)
@@ -783,13 +779,13 @@ func (c *checker) sectionB(states []state, pairKeys int, tripleKeys, tripleVals 
 	for _, indexed := range []bool{false, true} {
 		for _, a := range full {
 			for _, b := range full {
-				cases = append(cases, bcase{indexed: indexed, ops: []wop{a, b}, fullPair: true})
+				cases = append(cases, bcase{indexed: indexed, ops: []wop{a, b}, class: "pair"})
 			}
 		}
 		for _, a := range small {
 			for _, b := range small {
 				for _, d := range small {
-					cases = append(cases, bcase{indexed: indexed, ops: []wop{a, b, d}})
+					cases = append(cases, bcase{indexed: indexed, ops: []wop{a, b, d}, class: "triple"})
 				}
 			}
 		}
@@ -798,12 +794,13 @@ func (c *checker) sectionB(states []state, pairKeys int, tripleKeys, tripleVals 
 			for _, k := range K {
 				for _, x := range []wop{{'P', k, "y"}, {'D', k, ""}} {
 					x := x
-					cases = append(cases, bcase{indexed: indexed, ops: []wop{a}, extern: &x})
+					cases = append(cases, bcase{indexed: indexed, ops: []wop{a}, extern: &x, class: "extern"})
 				}
 			}
 		}
 	}
 	var execs, opens, cut, ncases int64
+	perClass := map[string]*int64{"pair": new(int64), "triple": new(int64), "extern": new(int64)}
 	ev.Par(len(states), c.procs, func(i int) {
 		if r.OutOfTime() {
 			atomic.AddInt64(&cut, 1)
@@ -813,9 +810,10 @@ func (c *checker) sectionB(states []state, pairKeys int, tripleKeys, tripleVals 
 		wants := make([]obs, len(cases))
 		posts := make([]state, len(cases))
 		for ci, bc := range cases {
-			if bc.fullPair && len(s) > pairKeys {
+			if !allow(bc.class, s) {
 				continue
 			}
+			atomic.AddInt64(perClass[bc.class], 1)
 			wants[ci], posts[ci] = modelBatch(s, bc)
 			atomic.AddInt64(&ncases, 1)
 			c.outcome("B "+bc.label(), 1)
@@ -864,7 +862,11 @@ func (c *checker) sectionB(states []state, pairKeys int, tripleKeys, tripleVals 
 	}
 	r.Add("transitions", ncases)
 	r.Set("B_batch_cases", ncases)
-	r.Set("B_all_pairs_only_from_states_with_keys_up_to", int64(pairKeys))
+	r.Set("B_cases_all_pairs_full_alphabet", *perClass["pair"])
+	r.Set("B_cases_all_triples_reduced_alphabet", *perClass["triple"])
+	r.Set("B_cases_one_op_plus_interleaved_direct_write", *perClass["extern"])
+	r.Set("B_ops_full_alphabet", int64(len(full)))
+	r.Set("B_ops_reduced_alphabet", int64(len(small)))
 	r.Add("traces_validated_against_impl", execs)
 	r.Set("B_base_states", int64(len(states)))
 	r.Set("B_batch_cases_per_state", int64(len(cases)))
@@ -1022,6 +1024,10 @@ func (c *checker) sectionC(sets []state, maxLen, maxLenViews, maxLenWrite int) {
 			return
 		}
 		s := sets[si]
+		_, s1 := s["a"]
+		_, s2 := s["ab"]
+		_, s3 := s["b"]
+		isSampleSet := len(s) == 3 && s1 && s2 && s3
 		base, pending := splitForBatch(s)
 		scramble, restore := scrambleOps(s)
 		type source struct {
@@ -1151,6 +1157,11 @@ func (c *checker) sectionC(sets []state, maxLen, maxLenViews, maxLenWrite int) {
 						rd := src.reader
 						got := runProgram(func() (db.Iterator, error) { return rd.NewIterator(pb, cf.ub) }, prog, -1, nil)
 						compare(bs.be, src.name, cf, keys, prog, want, core, got)
+						if isSampleSet && src.name == "db" && cf.prefix == "a" && cf.ub && len(prog) == 3 &&
+							prog[0] == mvSeek+len(K)-1 && prog[1] == mvPrev && prog[2] == mvPrev {
+							r.Sample(map[string]any{"section": "C", "backend": bs.be.name, "view_contents": s.canon(), "prefix": hx(cf.prefix),
+								"withUpperBound": cf.ub, "program": progString(prog), "model": []string(want), "backend_returned": []string(got)})
+						}
 					}
 				}
 			}
@@ -1350,7 +1361,15 @@ func TestCheck(t *testing.T) {
 		tk, tv = []string{"a", "ab", "a\xff", "b"}, []string{"x", "y"}
 	}
 	if want("B") {
-		c.sectionB(bStates, ev.Pick(r, 1, 2), tk, tv)
+		// quick: pairs from the 9 key sets with ≤ 1 key, triples and interleavings from all 37 key sets;
+		// thorough: pairs and interleavings from all 277 maps, triples (28-op alphabet) from the 37 key sets
+		allow := func(class string, s state) bool {
+			if r.Quick() {
+				return class != "pair" || len(s) <= 1
+			}
+			return class != "triple" || isRepresentative(s)
+		}
+		c.sectionB(bStates, allow, tk, tv)
 	}
 
 	// C: quick: key sets of ≤ 3 keys, programs ≤ 3 moves (≤ 2 with an injected write);
@@ -1392,8 +1411,6 @@ func TestCheck(t *testing.T) {
 		r.Violate(k, f.detail)
 	}
 	r.Set("divergent_runs_per_key", counts)
-	r.Sample(map[string]any{"section": "A", "example": "state {61=78}, mode ibatch-commit, op DeleteRange(61,62): op ok, store unchanged before commit, view empty, Write ok, store empty, snapshot still {61=78}"})
-	r.Sample(map[string]any{"section": "C", "example": "keys {61,62} prefix 61 upper=true program Seek(ff),Prev -> false/false then true/true/61"})
 	r.Assume = append(r.Assume,
 		"pebble runs on vfs.NewMem(); the on-disk format/FS layer is trusted",
 		"a backend state is a function of the abstract map: every representative is built by direct Puts (and re-used across ≤120 writes), not by replaying the BFS path",
@@ -1417,6 +1434,16 @@ func (c *checker) sectionC4(sets []state) {
 		c.r.Set("C4_"+strings.TrimPrefix(k, "C_"), c.r.Get(k))
 		c.r.Set(k, v)
 	}
+}
+
+// isRepresentative: the one map per key set produced by keySets (value fixed by the key's index in K).
+func isRepresentative(st state) bool {
+	for i, k := range K {
+		if v, ok := st[k]; ok && v != V[i%len(V)] {
+			return false
+		}
+	}
+	return true
 }
 
 // allMaps: every map over K x V with at most maxKeys keys.
